@@ -870,7 +870,12 @@ pub fn raw_op(lock: u32, act: Act, mode: Mode) -> bool {
 				}
 				None => false,
 			};
-			if fire {
+			if fire && std::thread::panicking() {
+				// a raw operation issued from a destructor that runs while the thread unwinds: if it panicked now the
+				// process would abort instead of the panic reaching the caller. Report that and let the operation through.
+				let what = g.threads[tid].ctx.what.clone();
+				g.violations.push(Violation { prop: "C12", key: format!("raw-fault-during-unwind|{}|fault-on-{}", what_key(&what), format!("{:?}", act).to_lowercase()), detail: format!("raw {} was issued by a destructor running during an unwind (in `{}`) and is due to panic: a second panic there aborts the process, so the first panic never reaches the caller", op.short(), what) });
+			} else if fire {
 				g.faults_fired.push((idx, op));
 				let call = g.threads[tid].ctx.serial;
 				g.log(tid, call, EvKind::Fault { op });
